@@ -71,6 +71,7 @@ void rq_free (rq_request *q);
 void rq_describe (const rq_request *q, char *buf, size_t n);
 void rq_label (const rq_request *q, char *buf, size_t n);   /* short class label */
 uint64_t rq_cell (const rq_request *q);
+pixman_indexed_t *rq_make_palette (pixman_format_code_t f, uint64_t seed);   /* coherent: ent[key(rgba[i])] == i */
 
 extern const pixman_format_code_t rq_dst_formats[]; extern const int rq_n_dst_formats;
 extern const pixman_format_code_t rq_src_formats[]; extern const int rq_n_src_formats;
